@@ -100,7 +100,7 @@ func runC03(c *core.Ctx) {
 	c.Rule("R1", "LWW decision table: incoming data overwrites a stored register iff missing ∨ newer ∨ (equal timestamp ∧ incoming tombstone ∧ stored not tombstone); field groups of a register are copied together and written back", 4)
 	c.Rule("R2", "every store into a receiver map is paired with recording the same key in the returned change; nil change is returned iff nothing was recorded", 5)
 	c.Rule("R3", "normalisation of the incoming descriptor dominates the merge loop", 1)
-	c.Rule("R4", "stores outside the LWW loops and every use of the clock parameter are control-dependent on localCAS (gossip merges read no clock)", 4)
+	c.Rule("R4", "stores outside the LWW loops and every use of the clock parameter are control-dependent on localCAS; the merge's helper cone reads no clock (gossip merges are a function of the operands)", 6)
 	c.Rule("R5", "one merge path: Merge is a pure delegation to the analysed merge function, and the KV store hands the decoded incoming value to Merge untouched", 3)
 	fns := mergeFns(c, "R1")
 	covered := map[string]bool{}
@@ -476,6 +476,27 @@ func analyseLWWLoop(c *core.Ctx, fn *an.Fn, sp lwwMap, ids lwwIDs) {
 
 // analyseLocalCAS: R4 — stores into receiver maps outside the incoming loops, and all uses of the time parameter, need localCAS.
 func analyseLocalCAS(c *core.Ctx, fn *an.Fn) {
+	// the helpers a merge calls read no clock, no random source and no package state: the outcome of a
+	// gossip merge is a function of the two operands only (a timestamp adjusted against the local wall
+	// clock makes A.Merge(B) and B.Merge(A) disagree)
+	if pkg := c.Prog.Pkg("ring"); pkg != nil {
+		cone := coneOf(c, pkg, fn)
+		var eff []string
+		n := 0
+		for name, f := range cone {
+			if f == fn {
+				continue // the merge function itself: its clock parameter is decided below
+			}
+			n++
+			for _, e := range effectFindings(c, f) {
+				if strings.Contains(e, ": clock:") || strings.Contains(e, "randomness") || strings.Contains(e, "environment") || strings.Contains(e, "go statement") {
+					eff = append(eff, name+": "+e)
+				}
+			}
+		}
+		sort.Strings(eff)
+		c.Check(len(eff) == 0, "R4", "func="+fn.Name+":cone", fn.Pos(), fmt.Sprintf("the %d same-package functions reachable from the merge read no clock, random source, environment or goroutine: %v", n, head(eff, 4)), n)
+	}
 	g := fn.Graph()
 	// find the bool parameter and the time.Time parameter positionally by type
 	var flag, clock types.Object
